@@ -343,10 +343,14 @@ def r2(ctx):
             hay = {'test': lambda s: [s.test], 'with': lambda s: [it.context_expr for it in s.items],
                    'iter': lambda s: [s.iter] if isinstance(s, ast.For) else [s.test],
                    'handler': lambda s: []}.get(k, lambda s: [s])(st)
+            inside_create = {id(x) for cr in creates for a_ in list(cr.args) + [k_.value for k_ in cr.keywords]
+                             for x in ast.walk(a_)}
             for h in hay:
                 for c in calls_in(h):
                     if c in creates:
                         continue          # the creating call itself (possibly a helper wrapping encode/open/write)
+                    if id(c) in inside_create:
+                        continue          # an argument of the creating call: evaluated before the destination is touched
                     if ctx.model.resolve_call(fi, c):
                         late.append(c)
                     elif i != first or c not in creates:
@@ -376,6 +380,8 @@ def r2(ctx):
                 st = hcfg.stmt[i]
                 for c2 in calls_in(st) if not isinstance(st, (ast.With, ast.If, ast.For, ast.While, ast.Try)) else []:
                     nm2 = call_name(c2) or ''
+                    if nm2.endswith('.close') and not c2.args and not c2.keywords:
+                        continue          # closing the handle (what a `with` block does at its end)
                     if not (nm2.endswith('.write') and all(isinstance(a, ast.Name) for a in c2.args)):
                         late.append(c2)
         # a text-mode file encodes while it writes: an unencodable character raises after the destination was truncated
